@@ -510,11 +510,12 @@ def contracts():
     for t in (0, 2):
         cs += [IndexLookup(t), MaskedLookup(t), ReorderedLookup(t), UniformDerivedLookup(t), DerivedLookup(t)]
     cs += [ChainedLookup(0), ChainedLookup(2), IndexLookupNegative(), IndexLookupForeign(), MaskedForeign(), AxisInverse('unmap-after-map'), AxisInverse('map-after-unmap')]
-    from contracts import c11_chain, c11_swap, c11_struct, c11_plain
+    from contracts import c11_chain, c11_swap, c11_struct, c11_plain, c11_seq
     cs += c11_chain.contracts()
     cs += c11_swap.contracts()
     cs += c11_struct.contracts()
     cs += c11_plain.contracts()
+    cs += c11_seq.contracts()
     return cs
 
 
